@@ -384,8 +384,8 @@ func init() {
 			if fv.Fn == nil {
 				e.fail(s, "panic", "gopool.Go(nil)")
 			}
-			if len(s.gs) >= 48 {
-				e.errf("more than 48 goroutines")
+			if len(s.gs) >= 512 {
+				e.errf("more than 512 goroutines")
 			}
 			e.usedModels = true
 			ng := &Goroutine{id: len(s.gs)}
